@@ -168,23 +168,7 @@ def run(tier, replay=None):
         case = common.load_replay(replay)["case"]
         print(json.dumps(case, indent=1)[:4000])
         return 0
-    # classifier + lattice + hash: model invariants
-    r = run_tlc("MC_PairHist", dict(constants={"Tier": tier, "Mode": "classifier", "Gen": False, "SHARD": 0, "NSHARDS": 1, "SAMPLE": 1, "SALT": 0},
-                                    invariants=INVS))
-    require_model_ok(r, "classifier")
-    chk.add_tlc(r, "classifier")
-    for mode in ("lattice", "hash"):
-        samp = 61 if (mode == "lattice" and tier == "quick") else 1
-        g = run_tlc_sharded("MC_PairHist", dict(constants={"Tier": tier, "Mode": mode, "Gen": True, "SAMPLE": samp,
-                                                          "SALT": common.SEED % samp}, invariants=INVS + ["Emit"]))
-        require_model_ok(g, mode)
-        chk.add_tlc(g, mode)
-        if not g.cases:
-            raise common.MachineryError(f"no cases emitted in mode {mode}")
-        cases = g.cases
-        collect(chk, cases, mode)
-    chk.exhaustive = tier == "thorough"
-    # direction B
+    # the four models are independent: their TLC runs overlap (quick tier), then the cases are replayed
     rng = random.Random(common.SEED * 7919 + 3)
     recs = gen_records(rng, 64 if tier == "quick" else 800)
     tmp = tempfile.mkdtemp(prefix="verif_c03_")
@@ -193,13 +177,33 @@ def run(tier, replay=None):
         with open(path, "w") as f:
             for rec in recs:
                 f.write(json.dumps(rec, separators=(",", ":")) + "\n")
-        g = run_tlc_sharded("MC_PairHist", dict(constants={"Tier": tier, "Mode": "trace", "Gen": True, "SAMPLE": 1, "SALT": 0}, invariants=INVS + ["Emit"]),
-                            env={"TRACE_FILE": path})
-        require_model_ok(g, "trace")
-        chk.add_tlc(g, "trace (direction B)")
-        if len(g.cases) != len(recs):
-            raise common.MachineryError(f"trace mode: {len(g.cases)} cases for {len(recs)} records")
-        collect(chk, g.cases, "trace")
+
+        def tlc(mode):
+            if mode == "classifier":
+                return run_tlc("MC_PairHist", dict(constants={"Tier": tier, "Mode": mode, "Gen": False, "SHARD": 0, "NSHARDS": 1,
+                                                              "SAMPLE": 1, "SALT": 0}, invariants=INVS))
+            samp = 61 if (mode == "lattice" and tier == "quick") else 1
+            return run_tlc_sharded("MC_PairHist", dict(constants={"Tier": tier, "Mode": mode, "Gen": True, "SAMPLE": samp,
+                                                                  "SALT": common.SEED % samp}, invariants=INVS + ["Emit"]),
+                                   nshards=(4 if mode == "trace" and tier == "quick" else None),
+                                   env=({"TRACE_FILE": path} if mode == "trace" else None))
+
+        import concurrent.futures as cf
+        modes = ("lattice", "hash", "trace", "classifier")
+        with cf.ThreadPoolExecutor(max_workers=(4 if tier == "quick" else 1)) as ex:
+            results = dict(zip(modes, ex.map(tlc, modes)))
+        require_model_ok(results["classifier"], "classifier")
+        chk.add_tlc(results["classifier"], "classifier")
+        for mode in ("lattice", "hash", "trace"):
+            g = results[mode]
+            require_model_ok(g, mode)
+            chk.add_tlc(g, mode if mode != "trace" else "trace (direction B)")
+            if not g.cases:
+                raise common.MachineryError(f"no cases emitted in mode {mode}")
+            if mode == "trace" and len(g.cases) != len(recs):
+                raise common.MachineryError(f"trace mode: {len(g.cases)} cases for {len(recs)} records")
+            collect(chk, g.cases, mode)
+        chk.exhaustive = tier == "thorough"
     finally:
         shutil.rmtree(tmp, ignore_errors=True)
     return chk.finish()
